@@ -49,6 +49,34 @@ Proof.
   - rewrite length_elems. intro H. rewrite nth_elems by lia. rewrite N2Nat.id. apply Hi; lia.
 Qed.
 
+(* ---- search and membership on a sorted array ---- *)
+Theorem search_refines c a len v : admitted c -> wf c a -> fits c a len -> len_ok c len ->
+  StronglySorted N.le (elems c a len) ->
+  exists t, packed_binary_search c a len v = Some (N.of_nat (lower_bound (elems c a len) v), t).
+Proof.
+  intros A Hwf Hfit Hok Hs.
+  destruct (binary_search_spec c a len v A Hwf Hfit Hok (sorted_elems_upto c a len Hs))
+    as (m & t & E & R1 & R2 & R3 & R4).
+  exists t. rewrite E. rewrite (found_lower_bound c a len v m R1 R2 R3). rewrite N2Nat.id. reflexivity.
+Qed.
+
+Theorem member_refines c a len v : admitted c -> wf c a -> fits c a len -> len_ok c len ->
+  StronglySorted N.le (elems c a len) ->
+  exists t, packed_member c a len v = Some (find_first (elems c a len) v, t).
+Proof.
+  intros A Hwf Hfit Hok Hs.
+  destruct (member_spec c a len v A Hwf Hfit Hok (sorted_elems_upto c a len Hs))
+    as (m & t & R1 & R2 & R3 & E & R4).
+  exists t. rewrite E. f_equal. f_equal.
+  rewrite (find_first_sorted _ v Hs). cbv zeta.
+  rewrite (found_lower_bound c a len v m R1 R2 R3), length_elems.
+  destruct (N.ltb_spec m len) as [Lt|Ge].
+  - replace (N.to_nat m <? N.to_nat len)%nat with true by (symmetry; apply Nat.ltb_lt; lia). cbn [andb].
+    rewrite <- (getv_nth_elems c a len m Lt).
+    destruct (getv c a m =? v); [lia | reflexivity].
+  - replace (N.to_nat m <? N.to_nat len)%nat with false by (symmetry; apply Nat.ltb_ge; lia). reflexivity.
+Qed.
+
 (* ---- the invariant tying an array to its reference list ---- *)
 Definition refines (c : pcfg) (cap : N) (a : list N) (len : N) (xs : list N) : Prop :=
   wf c a /\ fits c a cap /\ len <= cap /\ elems c a len = xs /\ StronglySorted N.le xs.
@@ -58,7 +86,7 @@ Proof. unfold len_ok. intros [H1 H2] H. split; lia. Qed.
 
 (* ---- one operation ---- *)
 Lemma step_refines c cap a len xs o : admitted c -> len_ok c cap -> refines c cap a len xs ->
-  sop_val o < 2 ^ p_w c ->
+  (match o with SInsertSorted v => v < 2 ^ p_w c | _ => True end) ->
   (match o with SInsertSorted _ => len < cap | _ => True end) ->
   exists a' len' t,
     packed_step c (a, len) o = Some (a', len', snd (spec_step xs o), t) /\
@@ -73,7 +101,7 @@ Proof.
   assert (Hup : sorted_upto c a len) by (apply sorted_elems_upto; rewrite He; exact Hs).
   assert (HLx : length xs = N.to_nat len) by (rewrite <- He; apply length_elems).
   destruct Hcap as [C31 CL].
-  destruct o as [v|v|v|v]; cbn [sop_val] in Hv; unfold packed_step, spec_step; cbn [fst snd].
+  destruct o as [v|v|v|v]; unfold packed_step, spec_step; cbn [fst snd].
   - (* InsertSorted *)
     destruct (binary_search_spec c a len v A Hwf Hfl Hok Hup) as (m & t & E & R1 & R2 & R3 & R4).
     unfold packed_insert_sorted. rewrite E.
@@ -178,7 +206,7 @@ Qed.
 (* ---- every history ---- *)
 Theorem run_refines c cap ops : admitted c -> len_ok c cap ->
   forall a len xs, refines c cap a len xs ->
-  Forall (fun o => sop_val o < 2 ^ p_w c) ops ->
+  Forall (fun o => match o with SInsertSorted v => v < 2 ^ p_w c | _ => True end) ops ->
   spec_fits (N.to_nat cap) xs ops ->
   exists a' len' t,
     packed_run c (a, len) ops = Some (a', len', snd (spec_run xs ops), t) /\
@@ -201,4 +229,35 @@ Proof.
     split; [reflexivity|]. split; [exact R2|]. split; [lia|]. split.
     + intros n Hn. rewrite F2 by exact Hn. apply F1. exact Hn.
     + apply Forall_app; split; assumption.
+Qed.
+
+(* ---- positional Insert / Delete as list operations ---- *)
+Theorem insert_refines c a len off v : admitted c -> wf c a -> fits c a (len + 1) -> len < 2147483648 ->
+  off <= len -> v < 2 ^ p_w c ->
+  elems c (fst (packed_insert c a len off v)) (len + 1) = insert_at (elems c a len) (N.to_nat off) v.
+Proof.
+  intros A Hwf Hfit Hlen Hoff Hv.
+  destruct (insert_spec c a len off v A Hwf Hfit Hlen Hoff Hv) as (W' & L' & G0 & G1 & G2 & G3 & Fr & Tc).
+  apply elems_eq.
+  - rewrite length_insert_at by (rewrite length_elems; lia). rewrite length_elems. lia.
+  - intros j Hj. rewrite nth_insert_at by (rewrite length_elems; lia).
+    destruct (Nat.ltb_spec (N.to_nat j) (N.to_nat off)) as [L1|G].
+    + rewrite G1 by lia. apply getv_nth_elems. lia.
+    + destruct (Nat.eqb_spec (N.to_nat j) (N.to_nat off)) as [Eq|Ne].
+      * replace j with off by lia. exact G0.
+      * rewrite G2 by lia. rewrite (getv_nth_elems c a len) by lia. f_equal. lia.
+Qed.
+
+Theorem delete_refines c a len off : admitted c -> wf c a -> fits c a len -> len_ok c len ->
+  off < len ->
+  elems c (fst (packed_delete c a len off)) (len - 1) = delete_at (elems c a len) (N.to_nat off).
+Proof.
+  intros A Hwf Hfit Hok Hoff.
+  destruct (delete_spec c a len off A Hwf Hfit Hok Hoff) as (W' & L' & G1 & G2 & G3 & Fr & Tc).
+  apply elems_eq.
+  - rewrite length_delete_at by (rewrite length_elems; lia). rewrite length_elems. lia.
+  - intros j Hj. rewrite nth_delete_at by (rewrite length_elems; lia).
+    destruct (Nat.ltb_spec (N.to_nat j) (N.to_nat off)) as [L1|G].
+    + rewrite G1 by lia. apply getv_nth_elems. lia.
+    + rewrite G2 by lia. rewrite (getv_nth_elems c a len) by lia. f_equal. lia.
 Qed.
